@@ -96,8 +96,8 @@ StrOffs == TLCEval(LET offs == NameOffs([k \in 1..Len(InTable) |-> NameSeq[InTab
                        OffOf(x) == offs[CHOOSE k \in 1..Len(InTable) : InTable[k] = x]
                    IN [id \in AllIds |-> IF id = 1 THEN 0 ELSE IF id = 3 THEN OffOf(2) + 5 ELSE OffOf(id)])
 ASSUME \A id \in AllIds : CStrAt(DynStr, StrOffs[id]).s = NameSeq[id]
-\* the decoy table of variant "split": same size, every string different
-Decoy == TLCEval(<<0>> \o Rep(88, Len(DynStr) - 2) \o <<0>>)
+\* the decoy table of variant "split": every non-empty string read from it differs
+Decoy == <<0, 88, 88, 88, 88, 88, 88, 0>>
 GH == TLCEval([k \in AllIds |-> GnuHash(NameSeq[k])])
 EH == TLCEval([k \in AllIds |-> ElfHash(NameSeq[k])])
 
@@ -106,19 +106,20 @@ EH == TLCEval([k \in AllIds |-> ElfHash(NameSeq[k])])
 \* a: argument - "str": name id; "val": a field value or "big"; "tab": which table; "bss" / "in": nothing
 T(k, c, sx, a) == [k |-> k, c |-> c, sx |-> sx, a |-> a]
 C1(n) == <<n, 0, 0, 0>>
+Big == [big |-> TRUE]                                    \* "a value needing all bits of the class"
 NullTag == T("null", C1(0), FALSE, 0)
 Alpha == << T("str", C1(1), FALSE, 2),                        \*  1 DT_NEEDED "libc.so.6"
             T("str", C1(1), FALSE, 5),                        \*  2 DT_NEEDED 70 bytes
             T("str", C1(14), FALSE, 3),                       \*  3 DT_SONAME "so.6" (offset inside another string)
             T("str", C1(15), FALSE, 4),                       \*  4 DT_RPATH UTF-8
             T("str", C1(29), FALSE, 1),                       \*  5 DT_RUNPATH "" (offset 0)
-            T("val", <<251, 255, 255, 111>>, FALSE, "big"),   \*  6 DT_FLAGS_1 with a value needing all bits
+            T("val", <<251, 255, 255, 111>>, FALSE, Big),   \*  6 DT_FLAGS_1 with a value needing all bits
             T("val", <<1, 0, 0, 112>>, FALSE, N(1)),          \*  7 0x70000001: DT_MIPS_RLD_VERSION / DT_AARCH64_BTI_PLT / unnamed
             T("val", <<53, 0, 0, 112>>, FALSE, N(16)),        \*  8 0x70000035: DT_MIPS_RLD_MAP_REL / unnamed
             T("val", <<15, 0, 0, 96>>, FALSE, N(1)),          \*  9 0x6000000f: DT_ANDROID_REL / DT_SUNW_FILTER
             T("val", <<19, 0, 0, 96>>, FALSE, N(7)),          \* 10 0x60000013: DT_SUNW_ENCODING = DT_SUNW_SORTENT / unnamed
             T("val", <<120, 86, 52, 18>>, FALSE, N(3)),       \* 11 0x12345678: unassigned
-            T("val", <<1, 0, 0, 128>>, TRUE, "big"),          \* 12 a negative d_tag
+            T("val", <<1, 0, 0, 128>>, TRUE, Big),          \* 12 a negative d_tag
             T("bss", C1(3), FALSE, 0),                        \* 13 DT_PLTGOT -> memory without file image
             T("in", C1(12), FALSE, 0),                        \* 14 DT_INIT -> file-backed memory
             T("val", C1(21), FALSE, N(0)),                    \* 15 DT_DEBUG 0
@@ -132,7 +133,7 @@ Tails == << <<>>,                                             \* 1 nothing after
             <<Alpha[1]>>,                                     \* 2 one more DT_NEEDED
             <<NullTag, Alpha[3]>>,                            \* 3 a second DT_NULL and a DT_SONAME
             <<TabTag("decoy"), Alpha[4], Alpha[12]>>,         \* 4 a DT_STRTAB naming another table, more entries
-            <<T("val", <<255, 255, 255, 255>>, TRUE, "big")>> >>   \* 5 all-ones garbage
+            <<T("val", <<255, 255, 255, 255>>, TRUE, Big)>> >>   \* 5 all-ones garbage
 
 (* --------------------------- abstract symbols -------------------------- *)
 Sym(nm, value, size, info, other, shndx) == [nm |-> nm, value |-> value, size |-> size, info |-> info, other |-> other, shndx |-> shndx]
@@ -209,13 +210,13 @@ Layouts == {"one", "two", "bss", "twobss", "high"}
 Variants == {"match", "split"}
 MPos == {"front", "back", "mid"}
 HKinds == {"none", "sysv", "gnu", "both"}
-Obj(mode, cf, layout, variant, mpos, free, tail, syms, hk, nb, so, ld) ==
-  [mode |-> mode, cls |-> cf.cls, le |-> cf.le, machine |-> cf.machine, osabi |-> cf.osabi, layout |-> layout, variant |-> variant,
-   mpos |-> mpos, free |-> free, tail |-> tail, syms |-> syms, hk |-> hk, nb |-> nb, so |-> so, ld |-> ld]
+Obj(mode, cf, layout, variant, mpos, fid, free, tid, syms, hk, nb, so, ld) ==
+  [fid |-> fid, tid |-> tid, tail |-> Tails[tid], mode |-> mode, cls |-> cf.cls, le |-> cf.le, machine |-> cf.machine, osabi |-> cf.osabi, layout |-> layout, variant |-> variant,
+   mpos |-> mpos, free |-> free, syms |-> syms, hk |-> hk, nb |-> nb, so |-> so, ld |-> ld]
 TwoSyms(c) == <<LSym(6, 1, c), LSym(7, 2, c)>>
 
 \* sweeps: one object per group of GroupLen registry codes, under a machine / OS ABI
-GroupLen == 12
+GroupLen == 10
 Skip == {<<0>>, <<1>>, <<4>>, <<5>>, <<6>>, <<14>>, <<15>>, <<29>>, <<245, 254, 255, 111>>}     \* the reader's own tags: every object has them
 CodesOf(key) == IF key \in DOMAIN RegByCode THEN LET ps == RegByCode[key] IN [i \in 1..Len(ps) |-> ps[i][1]] ELSE <<>>
 NotSkipped(c) == c \notin Skip
@@ -245,22 +246,22 @@ Init ==
   /\ phase = "build" /\ mem = NoMem /\ rd = Idle
   /\ \E mode \in Modes :
        CASE mode = "tags" -> \E c \in TagCfs, v \in Variants :
-                               o = Obj(mode, Cfs[c], "one", v, "front", <<>>, Tails[2], TwoSyms(Cfs[c].cls), "both", 2, 1, FALSE)
+                               o = Obj(mode, Cfs[c], "one", v, "front", <<>>, <<>>, 2, TwoSyms(Cfs[c].cls), "both", 2, 1, FALSE)
          [] mode = "tail" -> \E cl \in ClsLe, t \in 1..Len(Tails), mp \in MPos, v \in Variants :
-                               o = Obj(mode, CfOf(cl), "two", v, mp, <<Alpha[1], Alpha[4], Alpha[1]>>, Tails[t], TwoSyms(cl[1]), "sysv", 1, 1, FALSE)
+                               o = Obj(mode, CfOf(cl), "two", v, mp, <<1, 4, 1>>, <<Alpha[1], Alpha[4], Alpha[1]>>, t, TwoSyms(cl[1]), "sysv", 1, 1, FALSE)
          [] mode = "layout" -> \E cl \in ClsLe, l \in Layouts, v \in Variants, hk \in {"gnu", "both"} :
-                               o = Obj(mode, CfOf(cl), l, v, "mid", <<Alpha[3], Alpha[13], Alpha[14], Alpha[2]>>, Tails[2], TwoSyms(cl[1]), hk, 2, 1, FALSE)
+                               o = Obj(mode, CfOf(cl), l, v, "mid", <<3, 13, 14, 2>>, <<Alpha[3], Alpha[13], Alpha[14], Alpha[2]>>, 2, TwoSyms(cl[1]), hk, 2, 1, FALSE)
          [] mode = "syms" -> \E cl \in ClsLe, hk \in HKinds, nb \in NBuckets, ld \in BOOLEAN, l \in {"one", "twobss"} :
                                /\ (ld => hk \in {"gnu", "both"})
                                /\ (l = "twobss" => nb = 1)
-                               /\ o = Obj(mode, CfOf(cl), l, IF nb = 1 THEN "split" ELSE "match", "front", <<Alpha[1]>>, Tails[1], <<>>, hk, nb, 0, ld)
+                               /\ o = Obj(mode, CfOf(cl), l, IF nb = 1 THEN "split" ELSE "match", "front", <<1>>, <<Alpha[1]>>, 1, <<>>, hk, nb, 0, ld)
          [] mode = "sweep" -> \E s \in SweepIds : \E g \in 1..NGroups(s) :
-                               o = Obj(mode, SweepSpecs[s].cf, "one", IF g % 2 = 0 THEN "split" ELSE "match", "front", SweepTags(s, g), Tails[1],
+                               o = Obj(mode, SweepSpecs[s].cf, "one", IF g % 2 = 0 THEN "split" ELSE "match", "front", <<s, g>>, SweepTags(s, g), 1,
                                        <<LSym(6, 1, SweepSpecs[s].cf.cls)>>, "sysv", 1, 1, FALSE)
 
 AddTag(i) ==
   /\ phase = "build" /\ o.mode = "tags" /\ Len(o.free) < MaxFree
-  /\ o' = [o EXCEPT !.free = Append(@, Alpha[i])]
+  /\ o' = [o EXCEPT !.free = Append(@, Alpha[i]), !.fid = Append(@, i)]
   /\ UNCHANGED <<phase, mem, rd>>
 AddSymbol(id) ==
   /\ phase = "build" /\ o.mode = "syms" /\ Len(o.syms) < MaxSyms
@@ -325,7 +326,7 @@ BigOf(x) == IF x.cls = 32 THEN W(<<1, 0, 0, 128>>) ELSE W(<<1, 0, 0, 0, 0, 0, 0,
 TagDigits(x, t) == IF t.sx THEN DSext(t.c, Ws(x)) ELSE DTrunc(t.c, Ws(x))
 ValDigits(x, P, t) ==
   CASE t.k = "str" -> LEn(StrOffs[t.a], Ws(x))
-    [] t.k = "val" -> Digits(IF t.a = "big" THEN BigOf(x) ELSE t.a, Ws(x))
+    [] t.k = "val" -> Digits(IF "big" \in DOMAIN t.a THEN BigOf(x) ELSE t.a, Ws(x))
     [] t.k = "tab" -> P[t.a]
     [] t.k = "bss" -> P.bss
     [] t.k = "in" -> Plus(P.strtab, 1)
@@ -468,7 +469,7 @@ TagView(x, t) ==
 CountDet(x) == (HasG(x) /\ x.so < mem.n) \/ HasV(x)
 SymView(s) == <<NameSeq[s.nm], StrOffs[s.nm], W(Digits(s.value, Ws(o))), W(Digits(s.size, Ws(o))), s.info, s.other, s.shndx>>
 ViewTags(x) == UpToNull(AllTags(x))
-View == [tags |-> [i \in 1..Len(ViewTags(o)) |-> TagView(o, ViewTags(o)[i])],
+DynView == [tags |-> [i \in 1..Len(ViewTags(o)) |-> TagView(o, ViewTags(o)[i])],
          syms |-> [i \in 1..mem.n |-> SymView(mem.tab[i])],
          byname |-> [k \in AllIds |-> {i \in 0..(mem.n - 1) : mem.tab[i + 1].nm = k}],
          count |-> [det |-> CountDet(o), n |-> mem.n],
@@ -500,13 +501,21 @@ Tables == [bind |-> BindNames, type |-> TypeNames, shn |-> ShnNames,
            solaris |-> AllSolarisNames, names |-> NameSeq]
 Brief == [mode |-> o.mode, cls |-> o.cls, le |-> o.le, machine |-> o.machine, osabi |-> o.osabi, layout |-> o.layout, variant |-> o.variant,
           mpos |-> o.mpos, hk |-> o.hk, nb |-> o.nb, so |-> o.so, ld |-> o.ld, ntags |-> Len(AllTags(o))]
-Case == LET a == Split(ImWith)   b == Split(ImStripped) IN
-        [o |-> Brief, eh1 |-> a.eh, eh2 |-> b.eh, common |-> a.common, sh |-> a.sh,
-         ix |-> [dyn |-> Ix(o).dyn, sym |-> Ix(o).sym, str |-> Ix(o).str, pdyn |-> mem.pdyn.index, nload |-> Len(mem.loads)],
-         view |-> View]
-Emit == /\ (Done /\ rd.view = "idle" => CSVWrite("%1$s", <<ToJson(Case)>>, IOEnv.OUT))
-        /\ (phase = "build" /\ o = Obj("sweep", SweepSpecs[1].cf, "one", "match", "front", SweepTags(1, 1), Tails[1], <<LSym(6, 1, 64)>>, "sysv", 1, 1, FALSE)
-              => CSVWrite("%1$s", <<ToJson([tables |-> Tables])>>, IOEnv.OUT))
+\* three keyed lines per object (a line must stay below the 8 KB an append writes atomically)
+Key == [b |-> Brief, fid |-> o.fid, tid |-> o.tid, sn |-> [i \in 1..Len(o.syms) |-> o.syms[i].nm]]
+CaseA == LET a == Split(ImWith)   b == Split(ImStripped) IN
+         [key |-> Key, part |-> "A", eh1 |-> a.eh, eh2 |-> b.eh, common |-> a.common,
+          ix |-> [dyn |-> Ix(o).dyn, sym |-> Ix(o).sym, str |-> Ix(o).str, pdyn |-> mem.pdyn.index, nload |-> Len(mem.loads)]]
+CaseS == [key |-> Key, part |-> "S", sh |-> Split(ImWith).sh]
+CaseB == [key |-> Key, part |-> "B", view |-> DynView]
+\* (the state at the end of the segment read has one predecessor: every object is written once)
+Emit == /\ (Done /\ rd.view = "seg" /\ rd.pc = "done" =>
+               /\ CSVWrite("%1$s", <<ToJson(CaseA)>>, IOEnv.OUT)
+               /\ CSVWrite("%1$s", <<ToJson(CaseS)>>, IOEnv.OUT)
+               /\ CSVWrite("%1$s", <<ToJson(CaseB)>>, IOEnv.OUT))
+        \* the name tables and header layouts (a few initial states; the driver takes the first)
+        /\ (phase = "build" /\ o.cls = 64 /\ o.le /\ o.variant = "match" /\ o.machine = 62 /\ (o.mode = "tags" => Len(o.free) = 0)
+              /\ (o.mode = "syms" => Len(o.syms) = 0) => CSVWrite("%1$s", <<ToJson([tables |-> Tables])>>, IOEnv.OUT))
 
 (* ------------------------------ properties ----------------------------- *)
 Finished(v) == Done /\ rd.view = v /\ rd.pc = "done"
